@@ -3,6 +3,9 @@
 Job (stdin: JSON list):
   {"id", "root": dir, "depth": 0..4, "layout": "sib"|"api"|"far", "naming": "plain"|"n1"|"n2", "hists": [[[client, [codes], force], ...], ...],
    "spawn_every": N}
+A step may have a 4th element: an environment step ("conflict", "empty", "truncated", "bom", "list", "reg-deleted",
+"aliases-deleted", "aliases-emptied": the world edits the shared core's registry / alias file; "int-registry",
+"int-aliases": a forced generation of that client killed right after open(<file>, "w")).
 `hists` are the nodes (histories) of one sub-tree of the history tree; every proper prefix needed to reach them
 is executed too (and reported).  The tree is walked depth first; the project directory of a node is copied
 for every child, so each edge of the tree costs exactly one real generation.
@@ -220,7 +223,7 @@ def probe(req: dict) -> dict:
                 "visible": visible,
             }
         )
-    res: dict[str, Any] = {"probes": out, "regfile": False, "registry": {}, "aliases": [], "generator_imported": False}
+    res: dict[str, Any] = {"probes": out, "regfile": False, "regstate": "absent", "registry": {}, "aliases": [], "generator_imported": False}
     res["generator_imported"] = any(m == "pyopenapi_gen" or m.startswith("pyopenapi_gen.") for m in sys.modules)
     sc = req.get("shared_core")
     if sc:
@@ -228,11 +231,15 @@ def probe(req: dict) -> dict:
         rf = cdir / ".exception_registry.json"
         if rf.exists():
             res["regfile"] = True
+            res["regstate"] = "file"
             try:
                 reg = json.loads(rf.read_text())
-                res["registry"] = {str(k): sorted(int(x) for x in v) for k, v in reg.items()}
+                if isinstance(reg, dict):
+                    res["registry"] = {str(k): sorted(int(x) for x in v) for k, v in reg.items()}
+                else:
+                    res["regstate"] = "list" if isinstance(reg, list) else "unreadable"
             except Exception as e:  # noqa: BLE001
-                res["registry"] = {"__unreadable__": []}
+                res["regstate"] = "unreadable"
                 res["registry_error"] = f"{type(e).__name__}: {e}"[:200]
         res["aliases"] = _alias_classes(cdir)[1]
     return res
@@ -324,6 +331,66 @@ class Prober:
 # the job worker
 
 
+class Killed(BaseException):
+    """Stands for the process being killed in the middle of a generation (InterruptedRun)."""
+
+
+def corrupt(core_dir: Path, kind: str) -> bool:
+    """Environment step: what the world may do to the shared core between two generations.  -> whether it applied"""
+    reg = core_dir / ".exception_registry.json"
+    ali = core_dir / "exception_aliases.py"
+    if kind in ("aliases-deleted", "aliases-emptied"):
+        if not ali.exists():
+            return False
+        if kind == "aliases-deleted":
+            ali.unlink()
+        else:
+            ali.write_text("")
+        return True
+    if not reg.exists():
+        return False
+    text = reg.read_text()
+    if kind == "conflict":
+        reg.write_text("<<<<<<< HEAD\n" + text + "\n=======\n" + text.replace("[", "[\n    418,", 1) + "\n>>>>>>> feature/other-client\n")
+    elif kind == "empty":
+        reg.write_text("")
+    elif kind == "truncated":
+        reg.write_text(text[: max(1, len(text) // 2)])
+    elif kind == "bom":
+        reg.write_bytes(b"\xef\xbb\xbf" + text.encode())
+    elif kind == "list":
+        reg.write_text(json.dumps(sorted(json.loads(text).items())))
+    elif kind == "reg-deleted":
+        reg.unlink()
+    else:
+        raise ValueError(kind)
+    return True
+
+
+def interrupted_generate(generate: Any, job: dict, target: str) -> dict:
+    """Run one real generation that dies right after it opened `target` (a file name) for writing inside the project."""
+    import builtins
+
+    real_open = builtins.open
+    root = os.path.realpath(job["root"])
+
+    def dying_open(file: Any, mode: str = "r", *a: Any, **kw: Any) -> Any:
+        f = real_open(file, mode, *a, **kw)
+        try:
+            if "w" in mode and isinstance(file, (str, os.PathLike)) and os.path.basename(os.fspath(file)) == target and os.path.realpath(os.fspath(file)).startswith(root + os.sep):
+                f.close()
+                raise Killed(f"killed after open({os.path.basename(os.fspath(file))!r}, 'w')")
+        except Killed:
+            raise
+        return f
+
+    builtins.open = dying_open
+    try:
+        return generate(job)
+    finally:
+        builtins.open = real_open
+
+
 def _is_broken(ob: dict) -> bool:
     return any((not p["imports"]) or p["missing"] for p in ob["probes"])
 
@@ -349,14 +416,27 @@ def run_job(job: dict, prober: Prober) -> dict:
 
     def walk(node: dict, ndir: Path, hist: list, gen_clients: list[str]) -> None:
         for key in sorted(node):
-            cid, codes, force = json.loads(key)
+            step = json.loads(key)
+            cid, codes, force = step[:3]
+            env = step[3] if len(step) > 3 else "gen"
             counter[0] += 1
             d = base / f"n{counter[0]}"
             shutil.copytree(ndir, d, symlinks=True)
-            pkg, core_arg = packages(cid, depth, layout, naming)
-            existed = _pkg_dir(str(d), pkg).exists()
-            g = generate({"id": f"s{counter[0]}", "root": str(d), "spec": spec_for(cid, codes), "pkg": pkg, "core": core_arg, "force": force, "nopp": True})
-            clients_now = gen_clients if cid in gen_clients else gen_clients + [cid]
+            if env in ("gen", "int-registry", "int-aliases"):
+                pkg, core_arg = packages(cid, depth, layout, naming)
+                existed = _pkg_dir(str(d), pkg).exists()
+                gjob = {"id": f"s{counter[0]}", "root": str(d), "spec": spec_for(cid, codes), "pkg": pkg, "core": core_arg, "force": force, "nopp": True}
+                if env == "gen":
+                    g = generate(gjob)
+                else:
+                    g = interrupted_generate(generate, gjob, ".exception_registry.json" if env == "int-registry" else "exception_aliases.py")
+                    g["env_applied"] = g["errtype"] == "Killed"
+                clients_now = gen_clients if cid in gen_clients else gen_clients + [cid]
+            else:
+                existed = False
+                done = bool(shared_core) and corrupt(_pkg_dir(str(d), shared_core), env)
+                g = {"ok": False, "errtype": "none", "err": "", "env_applied": done}
+                clients_now = gen_clients
             req = {
                 "root": str(d),
                 "shared_core": shared_core,
@@ -376,13 +456,15 @@ def run_job(job: dict, prober: Prober) -> dict:
                 if ob2 != ob:
                     raise RuntimeError(f"forked and spawned interpreters observe different things:\n{json.dumps(ob)[:800]}\n{json.dumps(ob2)[:800]}")
                 ob["confirmed_by_spawn"] = True
-            h2 = hist + [[cid, codes, force]]
+            h2 = hist + [step]
             ob.update(
                 {
                     "h": h2,
+                    "env": env,
+                    "env_applied": bool(g.get("env_applied", False)),
                     "gen": {"ok": g["ok"], "errtype": g["errtype"] or "none", "err": (g["err"] or "")[:200]},
                     "existed": existed,
-                    "applied": bool(g["ok"] and (force or not existed)),
+                    "applied": bool(env == "gen" and g["ok"] and (force or not existed)),
                 }
             )
             obs.append(ob)
